@@ -5,6 +5,26 @@ VERIF = os.path.dirname(os.path.dirname(os.path.abspath(__file__)))
 props = [json.loads(l) for l in open(os.path.join(VERIF, "properties.jsonl"))]
 
 CLAIMED = {
+    "C03": dict(
+        text="KalmanMC.tla builds the joint Gaussian distribution of states, measurement variables and shocks of three periods from the library's "
+             "reduced form (unconditional start = exact Lyapunov solution) and obtains predicted/updated/smoothed means and variances, one-step "
+             "prediction errors, their covariances, determinants and quadratic forms as exact conditional moments (rational linear solves); TLC "
+             "checks non-negativity and the data-reproduction/equation identities on them. kalman_filter(return_info=True) is compared group by "
+             "group, period by period, with these moments, and the likelihood, its contributions (zero without observations) and var_scale with "
+             "the exact prediction-error decomposition, in level and deviation mode.",
+        note="Trusted: TLC, numpy. Bounds: 4 stationary library models (1-2 states, 1-2 observables, lagged state in the measurement equation), 3 periods, "
+             "3-4 missing-data masks, 2x2 variance settings. Unit-root (diffuse) initialisation is not covered by exact moments.",
+        design="5/C03", technique="TLA+ spec (KalmanMC over GaussSS) model-checked by TLC in exact rational arithmetic; every TLC-computed scenario replayed into irispie"),
+    "C08": dict(
+        text="On the exact conditional moments of KalmanMC.tla TLC checks that smoothed measurement variables equal the data where observed (zero "
+             "variance) and that the smoothed means satisfy every measurement equation with the smoothed measurement shocks and every transition "
+             "equation with the smoothed shocks. On kalman_filter's output the same clauses are evaluated with the structural form emitted by the "
+             "spec, values are compared with the spec, the model is re-simulated from the smoothed initial condition and shocks, deviation mode "
+             "is compared with level mode minus steady state, under three histories of the solved model; clause-only scenarios add a unit-root "
+             "model observed in levels and forward-looking models with anticipated shocks given as data.",
+        note="Trusted: TLC, numpy. Bounds as C03; for the unit-root and anticipated-shock scenarios only the clauses (not exact moments) are decided. "
+             "Transition equations and re-simulation are checked from the second filter period on.",
+        design="5/C08", technique="TLA+ spec (KalmanMC over GaussSS) model-checked by TLC; TLC-computed scenarios and the spec-emitted structural form replayed into irispie"),
     "C15": dict(
         text="GaussSS.tla obtains the stationary covariance of each library model as the exact solution of its Lyapunov equation (rational "
              "Gauss-Jordan), builds C(k) = T^k Omega and the measurement block (lagged states, shared measurement shocks), and marks variables "
